@@ -117,7 +117,7 @@ def wrapper_shape(ctx: Ctx):
                 on = True
             if on:
                 problems.append((st, 'RAISE_EXCEPTION is not the constant False: every alias raises instead of forwarding'))
-            if not all(isinstance(x, ast.Raise) for x in st.body) or st.orelse:
+            if not all(isinstance(x, ast.Raise) or (isinstance(x, ast.Assign) and isinstance(x.value, (ast.JoinedStr, ast.Constant))) for x in st.body) or st.orelse:
                 problems.append((st, 'the RAISE_EXCEPTION branch does more than raise'))
             continue
         if (
